@@ -110,6 +110,20 @@ def suite_indices(tier: str, seed: int, mult: int) -> SuiteResult:
             for name, a, b in zip(("chi", "dbi", "dunn"), vp, vu):
                 if not same(a, b, 1e-12):
                     _fail(res, f"C19:{name}-differs-between-packed-and-unpacked-input", f"{a} vs {b}", case)
+            # the medoid variant of DBI (CHI has none): packed (with and, for whole bytes, without n_features) vs unpacked
+            if k % 3 == 0 and all(len(c) for c in cl):
+                cnt["medoid_centrals"] = cnt.get("medoid_centrals", 0) + 1
+                with np.errstate(all="ignore"):
+                    mu = (float(jt_dbi(un, centrals="medoid", input_is_packed=False)),)
+                    variants = [("n_features given", dict(input_is_packed=True, n_features=F))]
+                    if F % 8 == 0:
+                        variants.append(("n_features omitted", dict(input_is_packed=True)))
+                    for tag, kw in variants:
+                        mp_ = (float(jt_dbi(pk, centrals="medoid", **kw)),)
+                        for name, a, b in zip(("dbi",), mp_, mu):
+                            if not same(a, b, 1e-12):
+                                _fail(res, f"C19:{name}-with-medoids-differs-between-packed-and-unpacked-input",
+                                      f"packed ({tag}) {a} vs unpacked {b}", case)
             # permutations of the clusters and of the rows inside them
             for _ in range(3):
                 perm = list(range(len(cl)))
